@@ -11,6 +11,10 @@ Spec conventions
   class spec : {'name','super','assoc':bool,'props':[prop],'methods':[meth]}
   prop       : {'name','type','array':bool,'key':bool,'ref':cls|None}
   inst spec  : {'cls','props': {name: value spec}}
+  embedded   : (models generated with extras=True) string properties with
+               'emb': 'instance'|'object' and 'embcls'; their scalars are
+               {'$emb': inst spec} or {'$embcls': class spec}; a property
+               with 'keyfalse' carries the qualifier Key(false)
 """
 import pickle
 
@@ -86,6 +90,10 @@ def gen_value(r, t, array=False, null_p=0.1, allow_cr=False):
 def scalar_to_cim(t, v):
     if v is None:
         return None
+    if isinstance(v, dict) and '$emb' in v:
+        return inst_to_cim(v['$emb'])
+    if isinstance(v, dict) and '$embcls' in v:
+        return class_to_cim(v['$embcls'])
     if t in ('real32', 'real64'):
         if v == 'inf':
             v = float('inf')
@@ -134,6 +142,8 @@ def prop_to_cim(name, spec, propdesc=None):
     kw = {}
     if t == 'reference':
         kw['reference_class'] = (propdesc or {}).get('ref')
+    if (propdesc or {}).get('emb'):
+        kw['embedded_object'] = propdesc['emb']
     return CIMProperty(name, value_to_cim(spec), type=t, is_array=is_array,
                        **kw)
 
@@ -173,9 +183,15 @@ QUALS = [
 ]
 
 
-def qualifier_decls():
+EXTRA_QUALS = [
+    ('EmbeddedObject', 'boolean', False, ['property', 'method', 'parameter'],
+     dict(overridable=False, tosubclass=True)),
+]
+
+
+def qualifier_decls(extras=False):
     out = []
-    for name, t, val, scopes, flav in QUALS:
+    for name, t, val, scopes, flav in QUALS + (EXTRA_QUALS if extras else []):
         # full scope table, as the MOF compiler creates it (pywbem_mock
         # indexes scopes[...] without a default)
         sc = {k: (k.lower() in scopes)
@@ -189,7 +205,7 @@ def qualifier_decls():
     return out
 
 
-_QFLAV = {q[0]: q[4] for q in QUALS}
+_QFLAV = {q[0]: q[4] for q in QUALS + EXTRA_QUALS}
 
 
 def mkqual(name, value):
@@ -211,11 +227,19 @@ def class_to_cim(cd):
         quals = []
         if p.get('key'):
             quals.append(mkqual('Key', True))
+        elif p.get('keyfalse'):
+            quals.append(mkqual('Key', False))
         if p.get('desc'):
             quals.append(mkqual('Description', p['desc']))
         kw = {}
         if p['type'] == 'reference':
             kw['reference_class'] = p['ref']
+        if p.get('emb') == 'instance':
+            quals.append(mkqual('EmbeddedInstance', p['embcls']))
+            kw['embedded_object'] = 'instance'
+        elif p.get('emb') == 'object':
+            quals.append(mkqual('EmbeddedObject', True))
+            kw['embedded_object'] = 'object'
         props.append(CIMProperty(
             p['name'], None, type=p['type'], is_array=p.get('array', False),
             qualifiers=quals, **kw))
@@ -244,8 +268,11 @@ def class_to_cim(cd):
 
 # --------------------------------------------------------------- generator
 def gen_model(seed, nns=None, allow_cr=False, with_methods=True,
-              max_inst=7):
-    """Returns a JSON-able model description."""
+              max_inst=7, extras=False):
+    """Returns a JSON-able model description.  extras=True adds (from a
+    stream of its own, so that everything else stays as it is without them)
+    embedded-instance / embedded-object properties and Key(false)
+    qualifiers."""
     r = stream(seed, 'model')
     nns = nns or r.choice([1, 1, 2, 2, 3])
     nspool = ['root/cimv2', 'root/b', 'test/ns/deep']
@@ -363,7 +390,38 @@ def gen_model(seed, nns=None, allow_cr=False, with_methods=True,
                     if not any(same_path(cmap, ispec, o) for o in insts):
                         insts.append(ispec)
         model['instances'][ns] = insts
+    if extras:
+        model['extras'] = True
+        rx = stream(seed, 'model-extras')
+        plain = [c for c in classes if not c['assoc']]
+        for i, c in enumerate(plain):
+            if rx.random() < 0.45:
+                kind = rx.choice(['instance', 'instance', 'object'])
+                c['props'].append({
+                    'name': 'Emb%d' % i, 'type': 'string',
+                    'array': rx.random() < 0.25, 'key': False, 'emb': kind,
+                    # (the mock wants the embedded class to exist already)
+                    'embcls': rx.choice(plain[:i + 1])['name']
+                    if kind == 'instance' else None})
+            nonkey = [p for p in c['props'] if not p['key'] and
+                      not p.get('emb')]
+            if nonkey and rx.random() < 0.3:
+                rx.choice(nonkey)['keyfalse'] = True
     return model
+
+
+def gen_embedded(r, cmap, cname, unknown=False):
+    """Scalar spec of an embedded instance of class cname (an instance of
+    an undeclared class if unknown)."""
+    props = {}
+    for p in all_props(cmap, cname):
+        if p.get('emb') or p['type'] == 'reference':
+            continue
+        if p['key'] or r.random() < 0.5:
+            props[p['name']] = gen_value(r, p['type'], p.get('array', False),
+                                         0.0 if p['key'] else 0.15)
+    return {'$emb': {'cls': 'NoSuchEmb' if unknown else cname,
+                     'props': props}}
 
 
 def all_props(cmap, cname):
@@ -420,7 +478,7 @@ def build(model, conn=None, **conn_kw):
     for ns in model['namespaces']:
         if ns not in c.namespaces:
             c.add_namespace(ns)
-        for q in qualifier_decls():
+        for q in qualifier_decls(model.get('extras', False)):
             c.SetQualifier(q, namespace=ns)
         for cd in model['classes']:
             c.CreateClass(class_to_cim(cd), namespace=ns)
@@ -444,7 +502,8 @@ def fresh_conn(model, **conn_kw):
     """A new FakedWBEMConnection holding the model; built once per process
     per model seed, afterwards restored from a pickle snapshot."""
     key = (model['seed'], len(model['classes']),
-           sum(len(v) for v in model['instances'].values()))
+           sum(len(v) for v in model['instances'].values()),
+           model.get('extras', False))
     blob = _BLOBS.get(key)
     if blob is None:
         c = build(model)
